@@ -20,6 +20,8 @@ RULE = ('Surface-mapping files POS.txt are generated in a scratch working direct
         'evaluated at the point AS GIVEN (x, y outputs are compared with the model without compensation); the interpolant is '
         'compared with the harness\'s own cubic-RBF solve (correspondence) and with the analytic surface the samples were drawn '
         'from (must not be worse than 10x the reference interpolant + 5 % of the surface range: smooth, no overshoot).  stream '
+        'the interpolant\'s second differences along a fine line must be those of a smooth surface (no jumps); in 30 % of the cases a '
+        'second mapping file is written to the same path (cache removed) and must be the surface used.  stream '
         'repeat: the same float32 arrays passed twice give the same output and are left unchanged; a second compiler built in the '
         'same directory (cache hit) gives the same output.  stream off: warp_flag=False next to the same POS.txt gives the plain '
         'rigid map.  stream gcode: write() with warp on, Z words of the file against the model.  Exact-rational comparison in Lean '
@@ -64,14 +66,14 @@ def surface(rng, lx, ly):
 def gen_samples(rng, lx, ly):
     import numpy as np
     if rng.random() < 0.5:
-        nx, ny = rng.randint(3, 12), rng.randint(3, 9)
+        nx, ny = rng.randint(3, 12), rng.randint(3, 10)
         m = rng.choice([0.0, 0.5, 1.0])
         xs = np.linspace(m, lx - m, nx)
         ys = np.linspace(m, ly - m, ny)
         pts = [(float(x), float(y)) for x in xs for y in ys]
         layout = 'grid'
     else:
-        n = rng.choice([6, 9, 15, 30, 60, rng.randint(6, 160)])
+        n = rng.choice([6, 9, 15, 30, 60, 100, 150, rng.randint(6, 160)])
         pts = [(0.0, 0.0), (lx, 0.0), (0.0, ly), (lx, ly)]
         while len(pts) < n:
             p = (round(rng.uniform(0, lx), 3), round(rng.uniform(0, ly), 3))
@@ -156,7 +158,7 @@ def build_case(rng):
     zs = [gcommon.f32(f(x, y)) for x, y in sites]
     cfg = wcfg(rng, lx, ly)
     return {'lx': lx, 'ly': ly, 'kind': kind, 'layout': layout, 'sites': [list(s) for s in sites], 'zs': zs, 'cfg': cfg,
-            'qseed': rng.randrange(1 << 30), 'dt': rng.choice(['f32', 'f32', 'f64', 'list'])}, f
+            'qseed': rng.randrange(1 << 30), 'dt': rng.choice(['f32', 'f32', 'f64', 'list']), 'refit': rng.random() < 0.3}, f
 
 
 def queries(case):
@@ -210,10 +212,30 @@ def check_case(ctx, case, f=None, collect=None):
         obs['third'] = third
         xy = np.column_stack([np.array([p[0] for p in bpts], dtype=np.float32), np.array([p[1] for p in bpts], dtype=np.float32)])
         s_obj = [float(v) for v in np.asarray(G.fwarp(xy), dtype=np.float64).ravel()]
+        # a fine line across the sampled area, observed through transform_points itself (z = 0 -> s / neff)
+        sxs = [s_[0] for s_ in sites]
+        sys_ = [s_[1] for s_ in sites]
+        fx = np.linspace(min(sxs), max(sxs), 513)
+        fy = np.full(513, min(sys_) + 0.37 * (max(sys_) - min(sys_)))
+        fine_xy = np.column_stack([fx.astype(np.float32), fy.astype(np.float32)]).astype(np.float64)
+        fine_obj = np.asarray(G.fwarp(fine_xy), dtype=np.float64).ravel()
         # cache hit
         obs['cache_file'] = (d / 'fwarp.pkl').is_file()
         G2 = PGMCompiler(warp_flag=True, **cfg)
         _, obs['cached'] = call_tp(G2, bpts, dt)
+        # a new mapping file at the same place (cache removed, the documented way to force a new fit) must be the one used
+        obs['refit'] = None
+        if case.get('refit'):
+            zs2 = [gcommon.f32(z + 0.003 * math.sin(1.3 * x) + 0.0005 * y) for (x, y), z in zip(sites, zs)]
+            write_pos(d, sites, zs2)
+            (d / 'fwarp.pkl').unlink()
+            Gr = PGMCompiler(warp_flag=True, **cfg)
+            _, out_r = call_tp(Gr, spts, dt)
+            obs['refit'] = (zs2, out_r)
+            # put the first mapping back for the remaining observations
+            write_pos(d, sites, zs)
+            (d / 'fwarp.pkl').unlink()
+            PGMCompiler(warp_flag=True, **cfg)
         # off
         G0 = PGMCompiler(warp_flag=False, **cfg)
         _, obs['off'] = call_tp(G0, bpts, dt)
@@ -223,19 +245,26 @@ def check_case(ctx, case, f=None, collect=None):
         G3.write(gcommon.to_np(rows))
         G3.close()
         obs['gtext'] = (d / 'prog.pgm').read_text()
-    s_own = [float(v) for v in own_rbf(sites, zs)(xy)]
+    own = own_rbf(sites, zs)
+    s_own = [float(v) for v in own(xy)]
+    fine = (fine_obj, np.asarray(own(fine_xy), dtype=np.float64))
     rng_z = (max(zs) - min(zs)) or 1e-3
+    if obs['refit'] is not None:
+        extra_req = [mreq(cfg, [p + [z] for p, z in zip(spts, obs['refit'][0])])]
+    else:
+        extra_req = []
     reqs = [mreq(cfg, [p + [z] for p, z in zip(spts, zs)]),
             mreq(cfg, [p + [gcommon.f32(s)] for p, s in zip(bpts, s_obj)]),
             mreq(cfg, [p + [0.0] for p in bpts]),
-            {'op': 'ctl.run', 'text': obs['gtext']}]
+            {'op': 'ctl.run', 'text': obs['gtext']}] + extra_req
 
     def judge(res):
         for m in res:
             if 'driver_error' in m:
                 raise core.InfraError(m['driver_error'])
-        m_sites, m_btw, m_off, g = res
-        info = {k: case[k] for k in ('lx', 'ly', 'kind', 'layout', 'cfg', 'dt', 'qseed', 'sites', 'zs')}
+        m_sites, m_btw, m_off, g = res[:4]
+        m_refit = res[4] if len(res) > 4 else None
+        info = {k: case.get(k) for k in ('lx', 'ly', 'kind', 'layout', 'cfg', 'dt', 'qseed', 'sites', 'zs', 'refit')}
         nsh = cfg['shift_origin'] != (0.0, 0.0)
         nt = case['kind'] != 'plane' and nsh and (cfg['flip_x'] or cfg['flip_y'] or (cfg['rotation_angle'] or 0) % 360 != 0)
         ctx.seen({'stream': 'warp', 'n': len(sites), 'kind': case['kind'], 'layout': case['layout'], 'cfg': cfg, 'q': case['qseed']}, nt)
@@ -268,6 +297,11 @@ def check_case(ctx, case, f=None, collect=None):
                 ctx.fail('corr', 'cache', info, 'no fwarp.pkl written next to POS.txt', 'cache:file')
             cmp('cache', obs['cached'], m_btw['out'], bpts, 'compiler built from the cached interpolant')
         cmp('off', obs['off'], m_off['out'], bpts, 'compensation disabled: not the plain rigid map')
+        if m_refit is not None:
+            ctx.count('warp.history', 'second-mapping-same-path')
+            cmp('refit', obs['refit'][1], m_refit['out'], spts, 'a new mapping file at the same path (cache removed) is not the surface used')
+        else:
+            ctx.count('warp.history', 'single')
         # G-code
         got = [tuple(float(gcommon.fr(v)) for v in e['dst']) for e in g.get('events', []) if e['t'] == 'm']
         exp = m_btw['out'][-8:]
@@ -277,9 +311,19 @@ def check_case(ctx, case, f=None, collect=None):
             ctx.fail('corr', 'gcode', info, f'{len(got)} moves written for 8 distinct points', 'gcode:count')
         # the interpolant: correspondence with the independent solve, and quality against the analytic surface
         dev = max(abs(a - b) for a, b in zip(s_obj, s_own))
-        ctx.count('interp.dev_vs_own', 'le1e-6' if dev <= 1e-6 else ('le1e-5' if dev <= 1e-5 else 'more'))
-        if dev > 2e-5 + 2e-3 * rng_z:
+        ctx.count('interp.dev_vs_own', 'le1e-7' if dev <= 1e-7 else ('le1e-6' if dev <= 1e-6 else ('le1e-5' if dev <= 1e-5 else 'more')))
+        if dev > 3e-6 + 1e-4 * rng_z:
             ctx.fail('corr', 'interp', {**info, 'max_dev': dev}, f'interpolant differs from the cubic-RBF reference by {dev:.3g} (range {rng_z:.3g})', 'interp:model')
+        # smoothness: second differences of s along a fine line (step 2^-9 of the extent) must be those of a smooth surface
+        if fine is not None:
+            so, sr = fine
+            d2o = float(np.max(np.abs(np.diff(so, 2)))) if len(so) > 2 else 0.0
+            d2r = float(np.max(np.abs(np.diff(sr, 2)))) if len(sr) > 2 else 0.0
+            ctx.count('interp.second_difference', 'le1e-8' if d2o <= 1e-8 else ('le1e-7' if d2o <= 1e-7 else 'more'))
+            if d2o > 20 * d2r + 2e-7:
+                ctx.fail('spec', 'interp', {**info, 'second_difference': d2o, 'reference': d2r},
+                         f'the surface is not smooth between samples: second difference {d2o:.3g} along a line sampled at 2^-9 of the extent '
+                         f'(reference interpolant {d2r:.3g})', 'interp:jump')
         if f is not None:
             truth = [f(float(np.float32(p[0])), float(np.float32(p[1]))) for p in bpts]
             e_obj = max(abs(a - b) for a, b in zip(s_obj, truth))
@@ -319,5 +363,6 @@ def run(ctx):
 def replay(ctx, payload):
     c = payload['case']
     case = {k: c[k] for k in ('lx', 'ly', 'kind', 'layout', 'cfg', 'dt', 'qseed', 'sites', 'zs')}
+    case['refit'] = c.get('refit', False)
     r, judge = check_case(ctx, case, None)
     judge(ctx.driver.ask(r))
